@@ -141,6 +141,16 @@ class Validator(object):
             child_name, cardinality = ref[0], ref[2]
             return child_name, cardinality
 
+        def _is_extra_field(el, name):
+            # fields after the last defined one are allowed when the latter is of type varies
+            # (see Segment.find_child_reference)
+            if el.classname != 'Segment' or name is None or not el.allow_infinite_children:
+                return False
+            try:
+                return name.startswith(el.name + '_') and int(name[len(el.name) + 1:]) > el._last_allowed_child_index
+            except ValueError:
+                return False
+
         def _check_known_element(el, ref, errs, warns):
             if ref is None:
                 try:
@@ -150,7 +160,8 @@ class Validator(object):
                     return
 
             if ref[0] in ('sequence', 'choice'):
-                element_children = {c.name for c in el.children if not c.is_z_element()}
+                element_children = {c.name for c in el.children
+                                    if not c.is_z_element() and not _is_extra_field(el, c.name)}
                 valid_children, valid_children_refs = _get_valid_children_info(ref)
 
                 # check that the children are all allowed children
